@@ -61,6 +61,7 @@ def write_replay(prop, unit_name, fail, idx, ce=None, verifier='verus'):
         'native_replay': ce.get('replay') if ce else None,
         'replay_cmd': ce.get('cmd') if ce else './check %s   # re-runs the verifier on /repo; the obligation above is reported again while the code violates it' % prop,
         'failing_input_found': bool(ce and ce.get('inputs') is not None),
+        'counterexample_search': (ce or {}).get('tried'),
     }
     with open(path, 'w') as f:
         json.dump(doc, f, indent=1)
